@@ -90,8 +90,69 @@ def source_audit():
     return bad
 
 
+BASELINE_BUILD = os.path.join(WORK, "baseline_build")
+_RSYNC_FILTER = ["--include=*/", "--include=*.vo", "--include=*.vos", "--include=*.vok", "--include=*.glob", "--include=.*.aux",
+                 "--include=Gen/*.v", "--include=Gen/status.json", "--include=/model.ml", "--include=/model.mli",
+                 "--exclude=*"]
+
+
+def save_baseline_build():
+    """after a complete build of the unchanged tree (setup): keep a copy of every compiled file, of the generated
+    sources they were compiled from and of the extracted model, with their time stamps.  When a later run finds the
+    generated files equal to the baseline again (a changed source was reverted), restore_baseline_build() puts that
+    build back instead of recompiling everything that depends on the regenerated files."""
+    st = gen_status()
+    if st["changed"] or st["underived"]:
+        return False
+    os.makedirs(BASELINE_BUILD, exist_ok=True)
+    rc, out = sh(["rsync", "-a", "--delete"] + _RSYNC_FILTER + [COQ + "/", BASELINE_BUILD + "/"], timeout=600)
+    if rc != 0:
+        shutil.rmtree(BASELINE_BUILD, ignore_errors=True)
+        return False
+    with open(os.path.join(BASELINE_BUILD, "STAMP"), "w") as f:
+        f.write(sources_hash())
+    return True
+
+
+def restore_baseline_build():
+    """see save_baseline_build(); only when the generated files are the baseline ones, the hand-written sources are
+    those of the saved build, and some generated file was rewritten since (its time stamp differs from the saved one)"""
+    stamp = os.path.join(BASELINE_BUILD, "STAMP")
+    try:
+        if open(stamp).read() != sources_hash():
+            return False
+    except FileNotFoundError:
+        return False
+    st = gen_status()
+    if st["changed"] or st["underived"]:
+        return False
+    stale = False
+    gdir = os.path.join(BASELINE_BUILD, "Gen")
+    for fn in os.listdir(gdir):
+        if not fn.endswith(".v"):
+            continue
+        a, b = os.path.join(gdir, fn), os.path.join(COQ, "Gen", fn)
+        try:
+            if open(a, "rb").read() != open(b, "rb").read():
+                return False
+            if int(os.stat(a).st_mtime) != int(os.stat(b).st_mtime):
+                stale = True
+        except FileNotFoundError:
+            return False
+    if not stale:
+        return False
+    rc, out = sh(["rsync", "-a"] + _RSYNC_FILTER + [BASELINE_BUILD + "/", COQ + "/"], timeout=600)
+    return rc == 0
+
+
 def run_translator():
     rc, out = sh([sys.executable, os.path.join(VERIF, "tools", "gen_tables.py")], timeout=120)
+    if rc == 0:
+        try:
+            if restore_baseline_build():
+                out += "\nbaseline build restored (generated files equal the baseline again)"
+        except Exception as ex:       # the cache is an optimisation only
+            out += "\nbaseline build not restored: %s" % ex
     return rc == 0, out
 
 
